@@ -18,10 +18,9 @@
 (***************************************************************************)
 EXTENDS Types
 
-\* An owner is the STRING given in the message.  "A1" is the all-upper-case bech32
-\* spelling of account a1's address: a valid spelling with the same signer but a
-\* different controller port (port ids are case-sensitive).
-Acct(o) == CASE o = "A1" -> "a1" [] o = "A2" -> "a2" [] o = "A3" -> "a3" [] OTHER -> o
+\* An owner is the STRING given in the message: "A1" is the all-upper-case bech32 spelling
+\* of account a1's address (Acct, Types.tla): same signer, different controller port
+\* (port ids are case-sensitive).
 
 \* m: [owner, conn, msg]
 H_SubmitTx(x, m) ==
